@@ -24,7 +24,10 @@ EvalMatches ==
 TNext == /\ l <= Len(Log) /\ l' = l + 1
          /\ \/ Ev.e = "Reset" /\ cfg' = Ev.cfg
             \/ Ev.e = "Eval" /\ EvalMatches /\ UNCHANGED cfg
-            \/ Ev.e = "Define" /\ Ev.res = DefineRes(cfg) /\ UNCHANGED cfg
+            \/ Ev.e = "Define" /\ UNCHANGED cfg
+               /\ LET d == DefineRes(cfg)
+                      firstRef == IF \E k \in 1..Len(d) : d[k] = "refused" THEN CHOOSE k \in 1..Len(d) : d[k] = "refused" /\ \A j \in 1..(k-1) : d[j] = "ok" ELSE Len(d) + 1
+                  IN Ev.res = IF Ev.mode = "groups" THEN [k \in 1..Len(d) |-> IF k <= firstRef THEN d[k] ELSE "skipped"] ELSE d
 TSpec == TInit /\ [][TNext]_<<l, cfg>>
 Accepted == TLCGet("stats").diameter = Len(Log) + 1
 =============================================================================
